@@ -13,4 +13,34 @@ TEXT = {
   "note": "trusted: Lean kernel, model = code only by differential run, WTO/nesting/predecessor order taken from the implementation (C07 checks them), harness/driver glue",
   "technique": "Lean 4 model of the iterator + exact differential correspondence against the real iterator with a finite powerset value type and a Kleene least-fixpoint oracle",
  },
+ "C01": {
+  "level": "proof (partial): C01.run_sound — for every value type satisfying the per-operation soundness contract (Sem), every well-formed weak topological ordering, every start block, assumption map, delay and descending count, the tables returned by the model of wto_iterator contain the collecting semantics (ReachPre/ReachPost), hence a bottom table entry means the block is never entered. Proved in Lean without bounds (1050 lines). Tied to the code by running the REAL iterator with a finite-powerset value type against the model and the Kleene least solution. Still open as theorems: the statement->operation mapping of intra_abs_transformer / fwd_analyzer pruning and the Sem instance of each shipped domain (exercised by the C03 history harness, not proved)",
+  "note": "trusted: Lean kernel, model = code by differential run only, WTO taken from the implementation (C07), the concrete semantics definitions in CrabModel/Fix/Semantics.lean",
+  "technique": "Lean 4 theorem (induction over the iterator model, semantic invariant with least solutions of sub-components) + exact differential correspondence with the real iterator",
+ },
+ "C03": {
+  "level": "proof (partial): C03.history_sound — for ANY domain whose individual operations satisfy their soundness law, after ANY finite history over a pool (copies, transformers, joins/widenings, meets/narrowings) every slot contains the collecting semantics; instances proved for the interval value lattice. For the 16 shipped domain instantiations that build here the per-operation law is NOT proved: it is tested on every run by replaying generated histories on concrete witness states in the Lean driver and checking is_bottom / at(v) / every exported linear constraint (a failed membership is a concrete failing input)",
+  "note": "trusted: Lean kernel; driver semantics lean/Driver/DomH.lean; sampling of witnesses; domains needing apron/elina/ldd/pplite are compiled out; term/powerset/congruence/sign/lookahead domains are not yet included (findings under triage, see DESIGN.md §7)",
+  "technique": "Lean 4 theorem over a generic pool/history model + refinement correspondence (witness replay in the Lean driver) against every shipped domain",
+ },
+ "C04": {
+  "level": "proof (partial): order and lattice laws proved for the interval value lattice (reflexive, bottom left, top right, yes => inclusion, is_bottom/is_top exact on well-formed values, join upper, meet exact); pool-level consequence proved generically; for the shipped domains the laws are evaluated on every run on all ordered pairs of pool values reached by generated histories (x<=x, bot<=x, x<=top, a<=b yes => witnesses of a satisfy every export of b, is_top/is_bottom after set_to_*)",
+  "note": "as C03; environment-level theorems (<= iff pointwise) are part of C19",
+  "technique": "Lean 4 theorems (interval lattice) + refinement correspondence over pair queries on every shipped domain",
+ },
+ "C05": {
+  "level": "proof (partial): C05.run_terminates — for every value type whose strict widening steps are well founded, every WTO, every delay/descending/assumption setting, the iterator model terminates (some fuel suffices), with fuel monotonicity/irrelevance and a proof that the chain condition is necessary; the widening chain condition of the individual domains and the inter-procedural loops are not yet proved (watchdog only)",
+  "note": "trusted: Lean kernel, model = code by differential run; watchdog = wall clock on every harness run",
+  "technique": "Lean 4 theorem (well-founded induction over widening steps, structural induction over the WTO) + differential run of the real iterator under a watchdog",
+ },
+ "C13": {
+  "level": "proof (partial): 46 Lean theorems: every wrapint operation (add, sub, mul, neg, udiv, urem, sdiv, srem, and, or, xor, not, shl/lshr/ashr for amounts < w, sext, zext, trunc, comparisons, signed/unsigned bignum conversion, construction from integers) of the model equals the BitVec w operation for ALL widths 1..64 and all operands; model tied to lib/wrapint.cpp by exact correspondence on 4*10^5 cases per run, each answer also compared with BitVec directly. Wrapped intervals and the wrapped-interval domain are not yet covered",
+  "note": "trusted: Lean kernel, model = code by differential run; shifts by >= 64 are C++ UB (not modelled); z_number outside int64 is refused by the code (CRAB_ERROR)",
+  "technique": "Lean 4 theorems against core BitVec + exact differential correspondence",
+ },
+ "C16": {
+  "level": "proof (partial): reference semantics proved in Lean (an operation writes one pool slot; a copy is unaffected by any later history on the original; a concretisation-preserving normalisation does not change meaning); the implementation is compared with it on every run: after each operation of a generated history the complete dump (is_bottom, is_top, at(v), constraints) of every other pool value of 16 shipped domain instantiations (incl. the copy-on-write abstract_domain_ref wrapper) must be unchanged. The copy-on-write protocol model of generic_abstract_domain.hpp is in progress",
+  "note": "as C03",
+  "technique": "Lean 4 reference model + exact correspondence of dumps before/after each operation",
+ },
 }
